@@ -548,6 +548,163 @@ theorem ldlt_identity {A L D : Matrix K} (heq : ∀ a b : K, NumOrd.eq a b = tru
 
 end ldlt
 
+/-! ### LDLᵀ: completeness with explicit factors (any field) -/
+
+section ldltComplete
+variable {K : Type} [Field K] [NumOrd K]
+
+/-- the factors under construction agree with the given tables `ℓ`, `d` on what is written so far -/
+structure LdltAgree (n : ℕ) (ℓ : ℕ → ℕ → K) (d : ℕ → K) (L D : Matrix K) (jL t jD : ℕ) : Prop where
+  shapedL : Shaped n n L
+  shapedD : Shaped n n D
+  zeroL : ∀ a b, a < n → b < n → ¬ LDone jL t a b → get L a b = 0
+  zeroD : ∀ a b, a < n → b < n → ¬ (a = b ∧ a < jD) → get D a b = 0
+  agreeD : ∀ b, b < jD → get D b b = d b
+  agreeL : ∀ a b, a < n → LDone jL t a b → get L a b = ℓ a b
+
+variable {n : ℕ} {A : Matrix K} {ℓ : ℕ → ℕ → K} {d : ℕ → K}
+
+/-- `A[a,b] = Σ_{k ≤ b} ℓ[a,k]·d[k]·ℓ[b,k]` for unit lower triangular `ℓ` -/
+theorem ldlt_entry_split (hlow : ∀ a b, a < b → ℓ a b = 0) (hone : ∀ a, ℓ a a = 1)
+    (hA : ∀ a b, a < n → b ≤ a → get A a b = ∑ k ∈ range n, ℓ a k * d k * ℓ b k)
+    {a b : ℕ} (ha : a < n) (hba : b ≤ a) :
+    get A a b = ∑ k ∈ range b, ℓ a k * ℓ b k * d k + ℓ a b * d b := by
+  rw [hA a b ha hba]
+  have : ∑ k ∈ range n, ℓ a k * d k * ℓ b k = ∑ k ∈ range (b + 1), ℓ a k * d k * ℓ b k := by
+    symm
+    apply sum_subset (range_subset_range.mpr (by omega))
+    intro k _ hk'
+    have : ¬ k < b + 1 := fun hh => hk' (mem_range.mpr hh)
+    rw [hlow b k (by omega), mul_zero]
+  rw [this, sum_range_succ, hone b, mul_one]
+  congr 1
+  exact sum_congr rfl (fun k _ => by ring)
+
+theorem ldltEntry_complete (hlow : ∀ a b, a < b → ℓ a b = 0) (hone : ∀ a, ℓ a a = 1)
+    (hd : ∀ a, a < n → d a ≠ 0)
+    (hA : ∀ a b, a < n → b ≤ a → get A a b = ∑ k ∈ range n, ℓ a k * d k * ℓ b k)
+    {L D : Matrix K} {j t : ℕ} (hinv : LdltAgree n ℓ d L D j t (j + 1)) (hi : j + t < n) :
+    LdltAgree n ℓ d (ldltEntry A D j t L) D j (t + 1) (j + 1) := by
+  have hjn : j < n := by omega
+  have hS : ldltSum L D (j + t) j = ∑ k ∈ range j, ℓ (j + t) k * ℓ j k * d k := by
+    rw [ldltSum_eq]
+    apply sum_congr rfl
+    intro k hk
+    have hk := mem_range.mp hk
+    rw [hinv.agreeL (j + t) k hi ⟨by omega, Or.inl hk⟩, hinv.agreeL j k hjn ⟨by omega, Or.inl hk⟩,
+      hinv.agreeD k (by omega)]
+  have hval : (if j + t = j then (1 : K)
+      else (get A (j + t) j - ldltSum L D (j + t) j) * (1 / get D j j)) = ℓ (j + t) j := by
+    by_cases ht : j + t = j
+    · rw [if_pos ht, ht, hone]
+    · rw [if_neg ht, hS, ldlt_entry_split hlow hone hA hi (by omega), hinv.agreeD j (by omega)]
+      have := hd j hjn
+      field_simp
+      ring
+  unfold ldltEntry
+  simp only []
+  rw [hval]
+  have hget : ∀ a b, b < n → get (set L (j + t) j (ℓ (j + t) j)) a b
+      = if a = j + t ∧ b = j then ℓ (j + t) j else get L a b :=
+    fun a b hb => get_set hinv.shapedL hi hjn a hb _
+  refine ⟨shaped_set hinv.shapedL _ _ _, hinv.shapedD, ?_, hinv.zeroD, hinv.agreeD, ?_⟩
+  · intro a b ha hb hnd
+    rw [hget a b hb, if_neg]
+    · apply hinv.zeroL a b ha hb
+      rintro ⟨h1, h2⟩; exact hnd ⟨h1, by omega⟩
+    · rintro ⟨rfl, rfl⟩; exact hnd ⟨by omega, Or.inr ⟨rfl, by omega⟩⟩
+  · intro a b ha hdone
+    obtain ⟨hba, hd'⟩ := hdone
+    rw [hget a b (by omega)]
+    by_cases hab : a = j + t ∧ b = j
+    · obtain ⟨rfl, rfl⟩ := hab; rw [if_pos ⟨rfl, rfl⟩]
+    · rw [if_neg hab]
+      exact hinv.agreeL a b ha ⟨hba, by omega⟩
+
+theorem ldltColumn_complete (heq : ∀ a b : K, NumOrd.eq a b = true ↔ a = b)
+    (hlow : ∀ a b, a < b → ℓ a b = 0) (hone : ∀ a, ℓ a a = 1) (hd : ∀ a, a < n → d a ≠ 0)
+    (hA : ∀ a b, a < n → b ≤ a → get A a b = ∑ k ∈ range n, ℓ a k * d k * ℓ b k)
+    {L D : Matrix K} {j : ℕ} (hinv : LdltAgree n ℓ d L D j 0 j) (hj : j < n) :
+    ∃ s', ldltColumn A n j (L, D) = some s' ∧ LdltAgree n ℓ d s'.1 s'.2 (j + 1) 0 (j + 1) := by
+  have hS : ldltSum L D j j = ∑ k ∈ range j, ℓ j k * ℓ j k * d k := by
+    rw [ldltSum_eq]
+    apply sum_congr rfl
+    intro k hk
+    have hk := mem_range.mp hk
+    rw [hinv.agreeL j k hj ⟨by omega, Or.inl hk⟩, hinv.agreeD k hk]
+  have hpivot : get A j j - ldltSum L D j j = d j := by
+    rw [hS, ldlt_entry_split hlow hone hA hj (le_refl j), hone]
+    ring
+  have hb : NumOrd.eq (get A j j - ldltSum L D j j) (0 : K) = false := by
+    cases hbb : NumOrd.eq (get A j j - ldltSum L D j j) (0 : K) with
+    | false => rfl
+    | true => exact absurd (hpivot ▸ (heq _ _).mp hbb) (hd j hj)
+  have hb' : NumOrd.eq (d j) (0 : K) = false := by rw [← hpivot]; exact hb
+  unfold ldltColumn
+  simp only [hpivot, hb']
+  refine ⟨_, rfl, ?_⟩
+  simp only []
+  have hgetD : ∀ a b, b < n → get (set D j j (d j)) a b = if a = j ∧ b = j then d j else get D a b :=
+    fun a b hb => get_set hinv.shapedD hj hj a hb _
+  have h1 : LdltAgree n ℓ d L (set D j j (d j)) j 0 (j + 1) := by
+    refine ⟨hinv.shapedL, shaped_set hinv.shapedD _ _ _, hinv.zeroL, ?_, ?_, hinv.agreeL⟩
+    · intro a b ha hb hnd
+      rw [hgetD a b hb, if_neg]
+      · apply hinv.zeroD a b ha hb
+        rintro ⟨h1, h2⟩; exact hnd ⟨h1, by omega⟩
+      · rintro ⟨rfl, rfl⟩; exact hnd ⟨rfl, by omega⟩
+    · intro b hb
+      rw [hgetD b b (by omega)]
+      by_cases hbj : b = j
+      · rw [if_pos ⟨hbj, hbj⟩, hbj]
+      · rw [if_neg (by tauto)]; exact hinv.agreeD b (by omega)
+  have h2 := foldRange_inv (fun t L => LdltAgree n ℓ d L (set D j j (d j)) j t (j + 1))
+    (fun t L => ldltEntry A (set D j j (d j)) j t L) (n - j) L h1
+    (fun t L ht hP => ldltEntry_complete hlow hone hd hA hP (by omega))
+  refine ⟨h2.shapedL, h2.shapedD, ?_, h2.zeroD, h2.agreeD, ?_⟩
+  · intro a b ha hb hnd
+    apply h2.zeroL a b ha hb
+    rintro ⟨h1, h3⟩; exact hnd ⟨h1, by omega⟩
+  · intro a b ha hdone
+    apply h2.agreeL a b ha
+    obtain ⟨h1, h3⟩ := hdone
+    exact ⟨h1, by omega⟩
+
+/-- **Completeness of LDLᵀ with explicit factors, any field**: if `A = ℓ·diag(d)·ℓᵀ` on the lower
+    triangle for a unit lower triangular `ℓ` and non-zero `d`, the model returns exactly them. -/
+theorem ldlt_complete_aux (heq : ∀ a b : K, NumOrd.eq a b = true ↔ a = b) (hsq : A.rows = A.columns)
+    (hlow : ∀ a b, a < b → ℓ a b = 0) (hone : ∀ a, ℓ a a = 1) (hd : ∀ a, a < A.rows → d a ≠ 0)
+    (hA : ∀ a b, a < A.rows → b ≤ a → get A a b = ∑ k ∈ range A.rows, ℓ a k * d k * ℓ b k) :
+    ∃ L D, ldlt A = some (L, D) ∧ Shaped A.rows A.rows L ∧ Shaped A.rows A.rows D ∧
+      (∀ a b, a < A.rows → b < A.rows → get L a b = ℓ a b) ∧
+      (∀ a b, a < A.rows → b < A.rows → get D a b = if a = b then d a else 0) := by
+  unfold ldlt
+  rw [if_neg (by simpa using hsq), ← hsq]
+  have h0 : LdltAgree A.rows ℓ d (fill A.rows A.rows (0 : K)) (fill A.rows A.rows (0 : K)) 0 0 0 := by
+    refine ⟨shaped_fill _ _ _, shaped_fill _ _ _, fun a b ha hb _ => get_fill _ _ _ _ _ ha hb,
+      fun a b ha hb _ => get_fill _ _ _ _ _ ha hb, fun b hb => by omega, ?_⟩
+    rintro a b _ ⟨_, h2⟩; omega
+  obtain ⟨⟨L, D⟩, h1, h2⟩ := forRange_progress
+    (fun j (s : Matrix K × Matrix K) => LdltAgree A.rows ℓ d s.1 s.2 j 0 j)
+    (fun j s => ldltColumn A A.rows j s) A.rows
+    (fill A.rows A.rows (0 : K), fill A.rows A.rows (0 : K)) h0
+    (fun j t hj hP => ldltColumn_complete (L := t.1) (D := t.2) heq hlow hone hd hA hP hj)
+  refine ⟨L, D, h1, h2.shapedL, h2.shapedD, ?_, ?_⟩
+  · intro a b ha hb
+    by_cases hba : b ≤ a
+    · exact h2.agreeL a b ha ⟨hba, Or.inl (by omega)⟩
+    · rw [hlow a b (by omega)]
+      apply h2.zeroL a b ha hb
+      rintro ⟨h3, _⟩; omega
+  · intro a b ha hb
+    by_cases hab : a = b
+    · rw [if_pos hab, ← hab]; exact h2.agreeD a ha
+    · rw [if_neg hab]
+      apply h2.zeroD a b ha hb
+      rintro ⟨h3, _⟩; exact hab h3
+
+end ldltComplete
+
 /-! ### bridge to Mathlib matrices -/
 
 /-- the `n × m` Mathlib matrix of the entries of a model tensor -/
